@@ -45,6 +45,8 @@ type Exec struct {
 	usedAfter         map[types.Object]bool
 	localAssigns      map[*types.Var][]ast.Expr
 	resultOverride    []Term
+	wfSeen            map[string]bool
+	extraNames        map[string]Term
 }
 
 type localSig struct {
@@ -599,6 +601,10 @@ func (x *Exec) havocLoopTargets(st *State, vars []types.Object, maps, ghosts []s
 	for _, m := range maps {
 		old := st.maps[m]
 		st.maps[m] = x.d.fresh(m+"_"+tag, old.Sort)
+		if m == "Alloc" {
+			// allocation only grows
+			st.assume(mk("Bool", "(forall ((?r Ref)) (=> (select %s ?r) (select %s ?r)))", old.S, st.maps[m].S))
+		}
 	}
 	for _, g := range ghosts {
 		old := st.ghosts[g]
